@@ -11,6 +11,7 @@ may fill up or empty meanwhile.  Spec actions HoldArm / Held / Unhold; the fire 
 guard of Fire (room in the target NOW).  A refused fire carries `_heldrel` (its attempt had been held and released) and
 `_heldfill` (balls that filled the target during the hold and that MPF had been shown before the instant of the fire).
 """
+import os
 import random
 
 from lib import tlc, harness
@@ -40,7 +41,18 @@ TOPO = {
     'balls6': dict(switches={'bd_trough': ['s_t1', 's_t2', 's_t3'], 'bd_plunger': ['s_plunger'], 'bd_lock': ['s_lock1', 's_lock2']},
                    target={'bd_trough': 'bd_plunger', 'bd_plunger': 'pf', 'bd_lock': 'bd_plunger'}, cap='MCCap6', tgt='MCTarget6',
                    holding=['bd_lock'], sourcing=['bd_lock']),
+    # the launcher has two targets (a diverter behind it): the playfield and the lock; the lock asks for balls itself
+    # (bd_lock.request_ball(): two hops from the trough) and keeps them; ejects towards a device can go astray (the ball never
+    # arrives, it lies on the playfield unseen until it drains); nothing can be shot into the lock here
+    'balls7': dict(switches={'bd_trough': ['s_t1', 's_t2', 's_t3'], 'bd_plunger': ['s_plunger'], 'bd_lock': ['s_lock1', 's_lock2']},
+                   target={'bd_trough': 'bd_plunger', 'bd_plunger': 'pf', 'bd_lock': 'pf'}, cap='MCCap7', tgt='MCTarget7',
+                   alt='MCAlt7', losable=['bd_trough', 'bd_plunger'], requestable=['bd_lock'], shootable=[]),
+    # the game topology balls5 with the lock as a `ball_locks` device of the multiball: a multiball start takes the balls the
+    # lock can give (none that are already on their way out) and the rest from the trough
+    'balls8': dict(switches={'bd_trough': ['s_t1', 's_t2', 's_t3'], 'bd_plunger': ['s_plunger'], 'bd_lock': ['s_lock1', 's_lock2']},
+                   target={'bd_trough': 'bd_plunger', 'bd_plunger': 'pf', 'bd_lock': 'pf'}, cap='MCCap8', tgt='MCTarget8', game=True),
 }
+TOPOS = ('balls', 'balls2', 'balls3', 'balls4', 'balls5', 'balls6', 'balls7', 'balls8')
 _H = {}
 # topologies in which eject_attempt queue events are held back (targets with two sources, and the plain chain), and the
 # devices whose attempts a handler of the environment may hold
@@ -85,6 +97,11 @@ class World:
         self.fire_idx = {}             # dev -> log line of its last fire
         self.seen = {}                 # ball -> time MPF was first shown that it takes up that room (left its source / arrived)
         self.ntok = 0
+        self.LOSABLE = TOPO[topo].get('losable', [])
+        self.REQUESTABLE = TOPO[topo].get('requestable', [])
+        self.dest = {}                 # fired device -> where MPF aimed that eject (devices with several targets)
+        self.wantd = {d: 0 for d in DEVS}      # balls requested for the device itself
+        self.silent = set()            # balls that went astray: they come to lie on the playfield without hitting a switch
         if self.LAUNCH:
             self._press()
 
@@ -132,10 +149,12 @@ class World:
     def coil_pulsed(self, dev):
         # context for the signature of a refused fire: balls already rolling towards the same target, and other
         # sources whose coil was pulsed in this very instant (their ball has not moved yet)
-        tgt = self.TG[dev]
+        ct = getattr(self.m.ball_devices[dev].outgoing_balls_handler, '_current_target', None)
+        tgt = self.TG[dev] if ct is None else ('pf' if ct.is_playfield() else ct.name)
+        self.dest[dev] = tgt
         rolling = len([1 for p in self.loc.values() if isinstance(p, tuple) and p[0] == 'transit' and p[3] == 'ok' and p[2] == tgt
                        and p[1] != 'pf'])
-        same = len([1 for d2 in self.fired if d2 != dev and self.TG[d2] == tgt])
+        same = len([1 for d2 in self.fired if d2 != dev and self.dest.get(d2, self.TG[d2]) == tgt])
         back = len([1 for p in self.loc.values() if isinstance(p, tuple) and p[0] == 'transit' and p[3] == 'back' and p[1] == tgt])
         sitting = len(self.at(tgt)) if tgt != 'pf' else 0
         # was the request this fire serves made after the rolling ball had left its source (MPF then knew about the ball when
@@ -159,7 +178,7 @@ class World:
             now = self.loop.time()
             heldfill = len([b2 for b2 in occupants if hl[0] <= self.occ.get(b2, -1) < hl[1] and now - self.seen.get(b2, now) > 0.001])
         self.fire_idx[dev] = len(self.ev)
-        self.log(op='fire', d=dev, _rolling=rolling, _same=same, _back=back, _sitting=sitting, _tfired=int(tgt in self.fired), _latereq=late_req, _slow=slow,
+        self.log(op='fire', d=dev, t=tgt, _rolling=rolling, _same=same, _back=back, _sitting=sitting, _tfired=int(tgt in self.fired), _latereq=late_req, _slow=slow,
                  _heldrel=heldrel, _heldfill=heldfill)
         self.fired.add(dev)
         q = self.outcomes.get(dev) or []
@@ -175,10 +194,24 @@ class World:
             self.log(op='noleave', d=dev)
             return
         b = self.jammed.pop(dev) if self.jammed.get(dev) in balls else balls[-1]     # a ball in the chute leaves first
+        tgt = self.dest.get(dev, self.TG[dev])
+        if kind == 'lost':
+            if dev not in self.LOSABLE or tgt == 'pf':
+                kind = 'ok'     # (only ejects towards another device can go astray, and only where the topology has it)
+            else:
+                # the ball never reaches the device it was fired at: it comes to lie on the playfield, unseen
+                self.loc[b] = ('transit', dev, 'pf', 'ok')
+                self.occ[b] = len(self.ev)
+                self.seen.pop(b, None)
+                self.silent.add(b)
+                self.sync_switches(dev)
+                self.log(op='leave', d=dev, b=b, kind='lost')
+                self.later(0.8, self.arrive, b)
+                return
         late = kind == 'late'       # arrives after every eject timeout (3-4 s) has expired, well before a ball is given up
         if late:
             self.lateballs.add(b)
-        self.loc[b] = ('transit', dev, self.TG[dev], 'ok' if late else kind)
+        self.loc[b] = ('transit', dev, tgt, 'ok' if late else kind)
         if kind != 'back':
             self.occ[b] = self.fire_idx.get(dev, len(self.ev))     # (a ball falling back never stopped taking up room in its device)
             self.seen[b] = self.loop.time()                        # its switch opens: MPF can see it go
@@ -209,7 +242,9 @@ class World:
             self.jammed[place] = b      # the only ball of the device comes to rest on the jam switch alone
         self.since[b] = self.loop.time()
         self.seen.setdefault(b, self.loop.time())
-        if place == 'pf':
+        if place == 'pf' and b in self.silent:
+            self.silent.discard(b)
+        elif place == 'pf':
             self.m.switch_controller.process_switch('s_pf', 1, logical=True)
             self.m.switch_controller.process_switch('s_pf', 0, logical=True)
         elif place in self.ENTRANCE and src != place:
@@ -305,6 +340,14 @@ class World:
         self.log(op='request')
         # with a launch button every third request is player controlled (the ball waits in the launcher for the button)
         self.m.playfield.add_ball(1, player_controlled=bool(self.LAUNCH and self.nreq % 3 == 0))
+
+    def reqdev(self, dev):
+        """The device asks for a ball for itself (a lock that wants a ball; it may be several hops away from the trough)."""
+        if dev not in self.REQUESTABLE or self.wantd[dev] >= self.CAP[dev] or self.want + self.wantd[dev] >= 3:
+            return
+        self.wantd[dev] += 1
+        self.log(op='reqdev', d=dev)
+        self.m.ball_devices[dev].request_ball()
 
     # ---- a handler of the environment holds the eject_attempt queue event of a device back (diverter, queue relay, show)
     def hold(self, dev, secs):
@@ -420,14 +463,23 @@ def _exec(sched, seed, topo):
             pending = int(m.playfield.num_balls_requested)
             idle = all(m.ball_devices[d].state == 'idle' for d in DEVS)
             held = sum(len(w.at(d)) for d in w.HOLDING if d not in TOPO[topo].get('sourcing', []))
-            w.log(op='rest', known=int(m.ball_controller.num_balls_known), idle=bool(idle), pending=pending,
+            if w.LOSABLE:
+                # a lost ball is given up 20 s after its eject timed out, and the replacement may be lost again: at rest only
+                # when a whole period has passed without anything happening in the world
+                for _ in range(10):
+                    n0 = len(ev)
+                    h.advance_time_and_run(secs)
+                    if len(ev) == n0 and w.quiet():
+                        break
+            short = [d for d in w.REQUESTABLE if w.wantd[d] > len(w.at(d)) and w.at('bd_trough')]
+            w.log(op='rest', _devshort=len(short), known=int(m.ball_controller.num_balls_known), idle=bool(idle), pending=pending,
                   states=[str(m.ball_devices[d].state) for d in DEVS], devs=list(DEVS), _over=len(w.at('pf')) - min(w.want, 3 - held),
                   _phys=dict({d: len(w.at(d)) for d in DEVS}, pf=len(w.at('pf'))),
                   _late=len([1 for e in ev if e['op'] == 'leave' and e.get('kind') == 'late']))
 
         for si, s in enumerate(sched):
             op = s['op']
-            if 'after' in s and op in ('request', 'drain', 'shot', 'escape', 'bounce', 'release', 'hold', 'unhold', 'wait'):
+            if 'after' in s and op in ('request', 'reqdev', 'drain', 'shot', 'escape', 'bounce', 'release', 'hold', 'unhold', 'wait'):
                 # hand-written timing: this operation comes right after the named world event (op, device/place)
                 n0 = len(ev)
                 for _ in range(400):
@@ -436,6 +488,8 @@ def _exec(sched, seed, topo):
                     h.advance_time_and_run(0.05)
             if op == 'request':
                 w.request()
+            elif op == 'reqdev':
+                w.reqdev(s['d'])
             elif op == 'drain':
                 w.drain()
             elif op == 'shot':
@@ -502,10 +556,14 @@ CONSTANTS
   Saved = %s
   MaxAtt <- %s
   Holdable = {%s}
+  Alt <- %s
+  Losable = {%s}
+  Requestable = {%s}
   MaxOps = %d
 %sCHECK_DEADLOCK FALSE
 """ % (spec, t['cap'], t['tgt'], ', '.join('"%s"' % d for d in t.get('shootable', ['bd_lock'])), ', '.join('"%s"' % d for d in t.get('holding', [])), ', '.join('"%s"' % d for d in t.get('sourcing', [])),
-       ', '.join('"%s"' % d for d in t.get('entrance', {})), 'TRUE' if t.get('game') else 'FALSE', t.get('att', 'MCNoAtt'), ', '.join('"%s"' % d for d in hold), maxops, extra)
+       ', '.join('"%s"' % d for d in t.get('entrance', {})), 'TRUE' if t.get('game') else 'FALSE', t.get('att', 'MCNoAtt'), ', '.join('"%s"' % d for d in hold), t.get('alt', 'MCNoAlt'),
+       ', '.join('"%s"' % d for d in t.get('losable', [])), ', '.join('"%s"' % d for d in t.get('requestable', [])), maxops, extra)
 
 
 def handmade():
@@ -515,6 +573,8 @@ def handmade():
     X = {'op': 'escape', 'd': 'bd_lock'}
     B = {'op': 'bounce', 'd': 'bd_lock'}
     REL = {'op': 'release', 'd': 'bd_lock'}
+    RL = {'op': 'reqdev', 'd': 'bd_lock'}
+    W = lambda secs=0.0: {'op': 'wait', 'secs': secs}
     L = lambda d, k: {'op': 'leave', 'd': d, 'kind': k}
     N = lambda d: {'op': 'noleave', 'd': d}
     AF = lambda s, op, where: dict(s, after=(op, where))
@@ -552,6 +612,22 @@ def handmade():
         # the launcher's first try fails while the trough is already asked for the next ball
         [R, R, L('bd_trough', 'ok'), L('bd_plunger', 'back'), L('bd_trough', 'ok'), L('bd_plunger', 'ok'), R],
         [R, R, R, L('bd_trough', 'ok'), N('bd_plunger'), L('bd_trough', 'ok'), L('bd_plunger', 'ok'), D, D],
+        # (lock behind the launcher, asking for balls itself) a ball on its way to the lock is lost on the first / second hop,
+        # given up after eject timeout + ball_missing_timeout and replaced; later requests for the playfield and the lock
+        [RL, L('bd_trough', 'lost'), W(30.0), W(10.0), R, D, D],
+        [RL, L('bd_trough', 'lost'), W(30.0), D, W(5.0), R, RL, D],
+        [RL, L('bd_trough', 'ok'), L('bd_plunger', 'lost'), W(30.0), R, D, D],
+        [R, L('bd_trough', 'lost'), W(30.0), RL, R, D, D],
+        [RL, RL, L('bd_trough', 'lost'), L('bd_trough', 'ok'), L('bd_plunger', 'ok'), L('bd_trough', 'lost'), W(60.0), R, D, D],
+        [RL, L('bd_trough', 'lost'), AF(D, 'arrive', 'pf'), R, D, D],
+        [RL, L('bd_trough', 'lost'), AF(R, 'arrive', 'pf'), W(30.0), D, D],
+        [RL, R, R, D, D],
+        [R, AF(RL, 'fire', 'bd_plunger'), AF(RL, 'fire', 'bd_trough'), D, R, D],
+        [RL, AF(R, 'fire', 'bd_plunger'), AF(R, 'arrive', 'bd_lock'), D, D],
+        # (multiball with the lock as ball_locks device) the multiball starts while the lock is kicking out a ball nobody claimed
+        [R, AF(S, 'arrive', 'pf'), AF(R, 'fire', 'bd_lock'), W(20.0), D, D],
+        [R, AF(S, 'arrive', 'pf'), AF(R, 'arrive', 'bd_lock'), W(20.0), D, D],
+        [R, AF(R, 'arrive', 'pf'), AF(S, 'arrive', 'pf'), AF(R, 'fire', 'bd_lock'), W(20.0), D, D, D],
     ]
 
 
@@ -599,12 +675,13 @@ def handmade_holds():
 def run_world(ctx):
     wd = tlc.prepare(ctx.scratch, 'BallWorld', 'ballworld')
     alljobs, alltraces, rejected = [], [], {}
-    for topo in ('balls', 'balls2', 'balls3', 'balls4', 'balls5', 'balls6'):
+    for topo in [t for t in TOPOS if t in os.environ.get('BW_TOPOS', ','.join(TOPOS)).split(',')]:     # (BW_TOPOS: development only)
         with open(wd + '/MC.cfg', 'w') as f:
             # (no held attempts in this one: `att` stays "free" everywhere, the state space is that of the world alone)
-            f.write(cfg_text('Spec', topo, 4 if ctx.quick else 6, 'INVARIANT TypeOK\nINVARIANT NeverOverfull\n'))
-        r = tlc.expect_ok(tlc.check(wd, 'BallWorldMC', 'MC.cfg', workers=8, timeout=2000), 'BallWorld design check')
-        ctx.add_tlc('BallWorldMC(%s)' % topo, r, {'Balls': 3, 'Devs': 3, 'MaxOps': 4 if ctx.quick else 6})
+            f.write(cfg_text('Spec', topo, MC_OPS.get(topo, (4, 6))[0 if ctx.quick else 1], 'INVARIANT TypeOK\nINVARIANT NeverOverfull\n'))
+        if topo not in MC_SAME:     # (a topology whose world constants equal another one's has the same state space)
+            r = tlc.expect_ok(tlc.check(wd, 'BallWorldMC', 'MC.cfg', workers=8, timeout=2000), 'BallWorld design check')
+            ctx.add_tlc('BallWorldMC(%s)' % topo, r, {'Balls': 3, 'Devs': 3, 'MaxOps': MC_OPS.get(topo, (4, 6))[0 if ctx.quick else 1]})
         if topo in MC_HOLD and (ctx.quick is False or topo in MC_HOLD_QUICK):
             # the world with held attempts (every device holdable), smaller budget
             mo = MC_HOLD[topo] + (0 if ctx.quick else 1)
@@ -655,9 +732,14 @@ def run_world(ctx):
 # exhaustive check of the world with held attempts: topology -> MaxOps at the quick tier (one more at thorough)
 MC_HOLD = {'balls6': 2, 'balls3': 1, 'balls': 2, 'balls2': 2}
 MC_HOLD_QUICK = ('balls6',)
+# exhaustive check of the world without held attempts: MaxOps (quick, thorough) where it differs from (4, 6)
+MC_OPS = {'balls7': (1, 3)}
+# the world of balls8 is that of balls5 (the difference is in MPF's configuration: ball_locks of the multiball)
+MC_SAME = {'balls8': 'balls5'}
 CAPS = {'balls': {'bd_trough': 3, 'bd_plunger': 1, 'bd_lock': 2}, 'balls2': {'bd_trough': 3, 'bd_plunger': 2, 'bd_lock': 2},
         'balls3': {'bd_trough': 3, 'bd_plunger': 1, 'bd_lock': 2}, 'balls4': {'bd_trough': 3, 'bd_plunger': 1, 'bd_lock': 2},
-        'balls5': {'bd_trough': 3, 'bd_plunger': 1, 'bd_lock': 2}, 'balls6': {'bd_trough': 3, 'bd_plunger': 1, 'bd_lock': 2}}
+        'balls5': {'bd_trough': 3, 'bd_plunger': 1, 'bd_lock': 2}, 'balls6': {'bd_trough': 3, 'bd_plunger': 1, 'bd_lock': 2},
+        'balls7': {'bd_trough': 3, 'bd_plunger': 1, 'bd_lock': 2}, 'balls8': {'bd_trough': 3, 'bd_plunger': 1, 'bd_lock': 2}}
 
 
 def classify(fe, topo):
@@ -679,6 +761,9 @@ def classify(fe, topo):
             return 'rest:count-mismatch:%s' % '+'.join(sorted(d for d, n in fe['_phys'].items() if m.get(d) != n))
         if fe.get('_over', 0) < 0:
             return 'rest:under-delivered'
+        if fe.get('_devshort', 0) > 0:
+            # a device asked for a ball for itself and did not get it although a ball lies in the trough
+            return 'rest:request-of-device-unserved'
         return 'rest:counts-or-delivery'
     if fe.get('op') == 'fire':
         # why the target has no room: a ball that left another source earlier is still rolling towards it; the target's own
@@ -700,7 +785,7 @@ def classify(fe, topo):
     return 'step:%s' % fe.get('op', '?')
 
 
-C05_KINDS = ('rest:not-idle', 'rest:under-delivered', 'step:noleave', 'step:leave', 'step:arrive')
+C05_KINDS = ('rest:not-idle', 'rest:under-delivered', 'rest:request-of-device-unserved', 'step:noleave', 'step:leave', 'step:arrive')
 
 
 def report(ctx, pid, jobs, traces, rejected):
@@ -711,7 +796,7 @@ def report(ctx, pid, jobs, traces, rejected):
         pe = info.get('prev_event') or {}
         kind = classify(fe, jobs[i][2])
         # progress clauses belong to C05, count clauses to C04; delivery at rest is judged by both
-        mine = kind.startswith(C05_KINDS) if pid == 'C05' else not kind.startswith(('rest:not-idle', 'rest:under-delivered'))
+        mine = kind.startswith(C05_KINDS) if pid == 'C05' else not kind.startswith(('rest:not-idle', 'rest:under-delivered', 'rest:request-of-device-unserved'))
         if kind == 'rest:counts-or-delivery' or kind.startswith('step:crash'):
             mine = True
         if not mine:
@@ -727,6 +812,8 @@ def run(ctx):
                                  'AtRestAgreement', 'SumEqualsKnown']
     report(ctx, 'C04', jobs, traces, v)
     ctx.assumptions += ['the world double is trusted; topology trough(3) -> plunger(1) -> playfield, lock(2) -> playfield',
+                        'balls7: a ball that goes astray comes to lie on the playfield without hitting a switch; only ejects towards '
+                        'another device go astray; once a ball has gone astray a device may keep waiting for a ball while the trough is empty',
                         'eject outcomes: success, ball falls back, ball does not move; no game running (requests are direct)',
                         'held eject attempts: one handler per device, holds of 0.5-5 s, one hold of a device at a time; targets fill up '
                         'during a hold only from their other source (no playfield shot enters a device that is also an eject target)']
